@@ -29,8 +29,8 @@ def run(ctx):
     # thorough: remaining batch sizes, batches containing retransmissions, no persister
     for j in (0, 1):
         H('C16_batch_j%d' % j, 'C16_send.c', ['OP=2', 'J=3', 'NMSG=3', 'JFIX=%d' % j, 'NEW_ONLY'], 'send_batch of %d messages' % j, 'batch of %d' % j, tier='thorough')
-    for j in (2, 3):
-        H('C16_batch_mixed_j%d' % j, 'C16_send.c', ['OP=2', 'J=3', 'NMSG=3', 'JFIX=%d' % j], 'send_batch of %d messages, each new or a retransmission' % j, 'batch of %d, new/retransmitted symbolic per message' % j, tier='thorough')
+    for j in (2, 3):      # j=2 runs in the quick tier since a seeded change (control record written only with the last element of a batch) needed a batch ending in a retransmission
+        H('C16_batch_mixed_j%d' % j, 'C16_send.c', ['OP=2', 'J=3', 'NMSG=3', 'JFIX=%d' % j], 'send_batch of %d messages, each new or a retransmission' % j, 'batch of %d, new/retransmitted symbolic per message' % j, tier='quick' if j == 2 else 'thorough')
     H('C16_send_ptr_nopersist', 'C16_send.c', ['OP=0', 'J=1', 'NMSG=1', 'NOPERSIST'], 'send without a persister', one, tier='thorough')
     H('C16_batch_nopersist_j3', 'C16_send.c', ['OP=2', 'J=3', 'NMSG=3', 'JFIX=3', 'NOPERSIST'], 'send_batch without a persister', 'batch of 3', tier='thorough')
     ctx.assumptions += ['operator new never fails', 'the socket accepts every byte written (no EAGAIN / reset)', 'single caller (concurrent senders: C25)',
